@@ -6,6 +6,7 @@ CONSTANTS
   MaxUrl = 2
   ReuseOnLookup = FALSE
   FabricatedNorm = FALSE
+  EmptyParam = TRUE
   WildHostCheck = FALSE
   KF_Shadow = TRUE
   Source = "all"
